@@ -68,6 +68,10 @@ def run_wind_case(c):
         o["cliq4"] = enc.arr(net.local_cliquishness(4))
         o["cliq5"] = enc.arr(net.local_cliquishness(5))
         o["maxnbdeg"] = enc.arr(net.max_neighbors_degree())
+        o["transitivity"] = enc.num(net.transitivity())
+        o["global_clustering"] = enc.num(net.global_clustering())
+        o["hot4"] = enc.num(net.higher_order_transitivity(4))
+        o["n_links"] = int(net.n_links)
     except Exception as ex:
         o["exc"] = type(ex).__name__
     rec["obs"] = o
